@@ -37,8 +37,8 @@ func compare(c *Case, ref *refevm.BlockResult, refPost refevm.State, run *T8nRun
 	if ref.ToolError != "" {
 		if run.Exit == 0 {
 			cls := "tool-error-expected"
-			if ref.ToolError == "invalid deposit log" {
-				cls = "deposit-log-accepted"
+			if ref.ToolError == "invalid deposit log layout" {
+				cls = "deposit-log-layout-accepted" // known divergence: go-ethereum checks only the length
 			}
 			add(cls, "model: %s (block invalid), but evm t8n exited 0", ref.ToolError)
 		}
